@@ -619,4 +619,151 @@ theorem baseSchema_obj (p : Param) (s : Json) (hs : p.baseSchema = .ok s) : ∃ 
     | many l => exact ⟨_, rfl⟩
   all_goals (simp at hs; exact ⟨_, hs.symm⟩)
 
+/-! ### object level -/
+
+theorem finiteL_mem : ∀ {l : List PyVal} {e : PyVal}, PyVal.finiteL l = true → e ∈ l → e.finite = true
+  | a :: as, e, h, he => by
+    simp only [PyVal.finiteL, Bool.and_eq_true] at h
+    rcases List.mem_cons.1 he with r | r
+    · subst r; exact h.1
+    · exact finiteL_mem h.2 r
+
+theorem validate_addField {kvs : List (String × Json)} {k : String} {v j : Json}
+    (hk : k = "description" ∨ k = "title") :
+    validate (addField (.obj kvs) k v) j = validate (.obj kvs) j := by
+  rcases hk with rfl | rfl <;> simp [addField, validate, validateKws_append, validateKws]
+
+theorem schema_obj (p : Param) (s : Json) (hs : p.schema = .ok s) : ∃ kvs, s = .obj kvs := by
+  unfold Param.schema at hs
+  split at hs
+  · simp at hs
+  · rename_i s0 hs0
+    simp only [Except.ok.injEq] at hs; subst hs
+    obtain ⟨kvs, rfl⟩ := baseSchema_obj p s0 hs0
+    cases p.effAllowNone
+    · exact ⟨kvs, rfl⟩
+    · exact ⟨_, rfl⟩
+
+/-- description / title are annotations: the entry validates what the parameter's schema validates -/
+theorem validate_schemaEntry {p : Param} {s : Json} (hs : p.schemaEntry = .ok s) :
+    ∃ s0, p.schema = .ok s0 ∧ ∀ j, validate s j = validate s0 j := by
+  unfold Param.schemaEntry at hs
+  split at hs
+  · simp at hs
+  · rename_i s0 hs0
+    obtain ⟨kvs, rfl⟩ := schema_obj p s0 hs0
+    refine ⟨_, hs0, fun j => ?_⟩
+    simp only [Except.ok.injEq] at hs; subst hs
+    cases hd : p.doc with
+    | none =>
+      by_cases hl : p.label.isEmpty = true <;>
+        simp [hl, addField, validate, validateKws_append, validateKws]
+    | some d =>
+      by_cases hde : d.isEmpty = true <;> by_cases hl : p.label.isEmpty = true <;>
+        simp [hde, hl, addField, validate, validateKws_append, validateKws]
+
+theorem schemaEntries_mem (subset : Option (List String)) : ∀ (ps : List Param) (entries : List (String × Json)),
+    schemaEntries subset ps = .ok entries → ∀ n s, (n, s) ∈ entries →
+    ∃ p ∈ ps, p.name = n ∧ p.schemaEntry = .ok s
+  | [], entries, h, n, s, hm => by simp [schemaEntries] at h; subst h; simp at hm
+  | p :: ps, entries, h, n, s, hm => by
+    simp only [schemaEntries] at h
+    split at h
+    · obtain ⟨q, hq, h1, h2⟩ := schemaEntries_mem subset ps entries h n s hm
+      exact ⟨q, List.mem_cons_of_mem _ hq, h1, h2⟩
+    · split at h
+      · simp at h
+      · rename_i s1 hs1
+        split at h
+        · simp at h
+        · rename_i r hr
+          simp only [Except.ok.injEq] at h; subst h
+          rcases List.mem_cons.1 hm with e | e
+          · simp only [Prod.mk.injEq] at e
+            exact ⟨p, List.mem_cons_self, e.1.symm, e.2 ▸ hs1⟩
+          · obtain ⟨q, hq, h1, h2⟩ := schemaEntries_mem subset ps r hr n s e
+            exact ⟨q, List.mem_cons_of_mem _ hq, h1, h2⟩
+
+theorem serializeComponents_lookup (subset : Option (List String)) :
+    ∀ (st : List (Param × PyVal)) (comps : List (String × PyVal)) (fields : List (String × Json)),
+    serializeComponents subset st = .ok comps → dumpsFields comps = .ok fields →
+    ∀ n j, Json.lookup n fields = some j →
+    ∃ pv ∈ st, pv.1.name = n ∧ serializeValue pv.1 pv.2 = .ok j
+  | [], comps, fields, hc, hd, n, j, hl => by
+    simp [serializeComponents] at hc; subst hc
+    simp [dumpsFields] at hd; subst hd
+    simp [Json.lookup] at hl
+  | (p, v) :: rest, comps, fields, hc, hd, n, j, hl => by
+    simp only [serializeComponents] at hc
+    split at hc
+    · obtain ⟨pv, hpv, h1, h2⟩ := serializeComponents_lookup subset rest comps fields hc hd n j hl
+      exact ⟨pv, List.mem_cons_of_mem _ hpv, h1, h2⟩
+    · split at hc
+      · simp at hc
+      · rename_i s hs
+        split at hc
+        · simp at hc
+        · rename_i comps' hcomps'
+          simp only [Except.ok.injEq] at hc; subst hc
+          simp only [dumpsFields] at hd
+          split at hd
+          · simp at hd
+          · rename_i j0 hj0
+            split at hd
+            · simp at hd
+            · rename_i js hjs
+              simp only [Except.ok.injEq] at hd; subst hd
+              simp only [Json.lookup] at hl
+              split at hl
+              · rename_i hn
+                simp only [Option.some.injEq] at hl; subst hl
+                exact ⟨(p, v), List.mem_cons_self, hn, by simp [serializeValue, hs, hj0]⟩
+              · obtain ⟨pv, hpv, h1, h2⟩ := serializeComponents_lookup subset rest comps' js hcomps' hjs n j hl
+                exact ⟨pv, List.mem_cons_of_mem _ hpv, h1, h2⟩
+
+theorem serializeParameters_lookup (subset : Option (List String))
+    (st : List (Param × PyVal)) (fields : List (String × Json))
+    (h : serializeParameters st subset = .ok fields) (n : String) (j : Json)
+    (hl : Json.lookup n fields = some j) :
+    ∃ pv ∈ st, pv.1.name = n ∧ serializeValue pv.1 pv.2 = .ok j := by
+  unfold serializeParameters at h
+  split at h
+  · simp at h
+  · rename_i comps hcomps
+    exact serializeComponents_lookup subset st comps fields hcomps h n j hl
+
+theorem validateProps_of : ∀ (props fields : List (String × Json)),
+    (∀ n s, (n, s) ∈ props → ∀ j, Json.lookup n fields = some j → validate s j = true) →
+    validateProps props fields = true
+  | [], _, _ => by simp [validateProps]
+  | (n, s) :: ps, fields, h => by
+    simp only [validateProps, Bool.and_eq_true]
+    refine ⟨?_, validateProps_of ps fields (fun n' s' hm => h n' s' (List.mem_cons_of_mem _ hm))⟩
+    split
+    · rename_i j hj; exact h n s List.mem_cons_self j hj
+    · rfl
+
+theorem eq_of_name_eq {ps : List Param} (hnd : (ps.map (·.name)).Nodup) {p q : Param}
+    (hp : p ∈ ps) (hq : q ∈ ps) (h : p.name = q.name) : p = q := by
+  have h1 := findParam_of_nodup ps hnd p hp
+  have h2 := findParam_of_nodup ps hnd q hq
+  rw [h] at h1; rw [h1] at h2; exact Option.some.inj h2
+
+theorem wellFormed_schemaEntry {p : Param} {s : Json} (hs : p.schemaEntry = .ok s) :
+    ∃ s0, p.schema = .ok s0 ∧ wellFormed s = wellFormed s0 := by
+  unfold Param.schemaEntry at hs
+  split at hs
+  · simp at hs
+  · rename_i s0 hs0
+    obtain ⟨kvs, rfl⟩ := schema_obj p s0 hs0
+    refine ⟨_, hs0, ?_⟩
+    simp only [Except.ok.injEq] at hs; subst hs
+    cases hd : p.doc with
+    | none =>
+      by_cases hl : p.label.isEmpty = true <;>
+        simp [hl, addField, wellFormed, wellFormedKws_append, wellFormedKws, jstr, isPlainStr]
+    | some d =>
+      by_cases hde : d.isEmpty = true <;> by_cases hl : p.label.isEmpty = true <;>
+        simp [hde, hl, addField, wellFormed, wellFormedKws_append, wellFormedKws, jstr, isPlainStr]
+
 end ParamVerif.Json
